@@ -361,6 +361,20 @@ CLAIMS["C14"] = (
     "pieces returned alongside are not specified.",
     "DESIGN.md section 4, C14")
 
+CLAIMS["C15"] = (
+    "escapeSQL against the literal encodings of MySQL's two lexical modes, for every value (any bytes, any length below 2^30): by an "
+    "inductive loop invariant, the result consists of the value's bytes in order, each backslash and quote preceded by exactly one backslash "
+    "(length = len + number of such bytes; byte j at j + ne(j) after its escape) -- the default-mode literal that denotes exactly the value "
+    "and whose first unescaped quote is the closing one. The same statement for NO_BACKSLASH_ESCAPES (quotes doubled, backslashes "
+    "verbatim) is proved only for values without quote and backslash: for all others it fails on the pinned tree (recorded finding: the "
+    "session's sql_mode is never consulted). util.ItoString: NULL unquoted for a NULL parameter; string / blob / temporal / decimal "
+    "parameters (all bound as []byte) keep their bytes and are quoted; numbers are not quoted.",
+    "Trusted: fmt's %v renders a number as its decimal text (numeric fidelity is not proved); the counting functions ne / nq are given by "
+    "definitional axioms plus their monotonicity consequences (induction done by hand). NOT under contract: Stmt.GetRewriteSQL (bytes.Buffer "
+    "concatenation of the pieces with the literals; the pairing of placeholder k with argument k is read, not proved), bindStmtArgs' "
+    "decoding of the binary values (C12/C16 cover the readers and the reset), multi-byte connection charsets (GBK-style escapes).",
+    "DESIGN.md section 4, C15")
+
 NA = {
  "C02": "not applicable to contract-based verification here: the oracle is the result of executing SQL on data (what one MySQL holding all shards would return); no contract within reach expresses an SQL execution semantics, and the rewriter is ~3k lines of visitors over TiDB AST types (DESIGN.md section 5)",
  "C06": "not applicable: the property compares a token pre-check with the decision of the yacc-generated parser; the specification is that parser (tables + hand-written lexer), which is outside the verifier's subset (DESIGN.md section 5)",
